@@ -39,6 +39,8 @@ DOCS = [
     ('xml', '<html xmlns="%s" lang="en">' % XHTML + BODY + '</html>'),      # XHTML
     ('xml', '<root lang="en">' + BODY + '</root>'),                          # XML, not XHTML
     ('lxml', '<html lang="en">' + BODY + '</html>'),
+    # language only through the <meta> pragma (no lang attribute on the root), iframe document without any language
+    ('html.parser', '<html>' + BODY.replace('content="de"', 'content="en"') + '</html>'),
 ]
 NSMAPS = [None, {'svg': SVG, 'xlink': XLINK, 'html': XHTML}, {'': XHTML, 'svg': SVG, 'xlink': XLINK}]
 CUSTOM = {':--al': 'p.c1, span'}
@@ -52,13 +54,15 @@ ATOMS = [
     ':hover', ':active', ':focus', ':visited', ':target', ':current(p)', ':host', ':host(p)', ':host-context(p)',
     ':focus-within', ':paused', ':scope', '&', 'svg|circle', '*|circle', '|p', 'svg|*', '[xlink|href]', '[*|href]', '[|title]',
     ':--al', 'div p, x:dir(ltr)', 'p:dir(ltr)', 'span:defined', ':not(:dir(rtl))', ':is(:defined, svg|circle)',
+    # atoms that split the document at the iframe boundary (evaluation-order effects of per-document memo tables)
+    ':not(iframe *)', 'iframe *', 'p:lang(en)', ':lang(de)', '#i1 *', 'form *',
 ]
 XS = [0, 1, 3]      # X in 'X:is(A)': p, *, .c1
 
 
 def _ctx_list(tier):
     if tier == 'quick':
-        return [(0, 0), (0, 1), (1, 1), (1, 2), (2, 1), (2, 2), (3, 1), (3, 0)]
+        return [(0, 0), (0, 1), (1, 1), (1, 2), (2, 1), (2, 2), (3, 1), (5, 0)]
     return [(d, n) for d in range(len(DOCS)) for n in range(len(NSMAPS))]
 
 
@@ -88,7 +92,7 @@ def _worker(args):
     for i in rows:
         A = ATOMS[i]
         for j in range(0, N, 1):
-            if stride > 1 and (i + j) % stride:
+            if stride > 1 and (i + j) % stride and not (i >= N - 6 or j >= N - 6):
                 continue
             B = ATOMS[j]
             c = (i + 2 * j + 1) % N
